@@ -49,12 +49,20 @@ func (r RawTime) Value() (t time.Time, valid bool) {
 type RawDeltaSeconds string
 
 func (r RawDeltaSeconds) Value() (dur time.Duration, valid bool) {
-	if len(r) == 0 || r[0] == '-' {
+	if len(r) == 0 {
 		return
 	}
+	// delta-seconds = 1*DIGIT (no sign, no whitespace).
+	for i := 0; i < len(r); i++ {
+		if r[i] < '0' || r[i] > '9' {
+			return
+		}
+	}
 	seconds, err := strconv.ParseInt(string(r), 10, 64)
-	if err != nil {
-		return
+	if err != nil || seconds > int64(maxDuration/time.Second) {
+		// Too large to represent: use the greatest representable value
+		// instead of wrapping around (RFC 9111 §1.2.2).
+		return maxDuration, true
 	}
 
 	return time.Duration(seconds) * time.Second, true
